@@ -249,6 +249,7 @@ func runC20Case(t testing.TB, r *kit.Run, idx int, seed [2]uint64, mode c20Mode)
 		return c20Result{}
 	}
 	e := newEngine(cc, r, rng, cfg, chain, vm, genesis)
+	e.ctxP, e.probeP = 30, 30
 	if cfg.MaxLag > 0 {
 		chain.gate.setOpen(false)
 	}
@@ -303,6 +304,12 @@ func runC20Case(t testing.TB, r *kit.Run, idx int, seed [2]uint64, mode c20Mode)
 	}
 	if e.stat["accepts"] > cfg.AcceptedCache {
 		e.stat["cases_with_accepted_cache_eviction"] = 1
+	}
+	if e.stat["verify_ctx_mismatch_refused"] > 0 {
+		e.stat["cases_with_ctx_mismatch_verify"] = 1
+	}
+	if e.stat["accept_probes"] > 0 {
+		e.stat["cases_with_accept_probe"] = 1
 	}
 	res := c20Result{
 		shape:      fmt.Sprintf("%d/%d/%d/%s", cfg.ParsedCache, cfg.AcceptedCache, cfg.MaxLag, e.shape),
@@ -435,6 +442,8 @@ func (e *engine) stepC20() {
 func TestC20(t *testing.T) {
 	r := kit.Start(t, "C20", "exploration")
 	r.Rule("case = (VM config with ParsedBlockCacheSize, AcceptedBlockWindowCache in {1,2,4}, async accept lag bound in {0,1,2,3,6,12}) + 30..99 random actions of a model snowman engine (build on preference, parse new block on a processing/last-accepted/unverified/accepted/rejected/unknown parent, valid/invalid/transiently failing, issue pending block, re-parse known bytes, set preference, accept 1..5 blocks of a branch with transitive rejection of the conflicting subtrees, release the gated accept queue). " +
+		"30% of the new (parsed or built) blocks embed a P-Chain context; 22% of the verifications are preceded by a VerifyWithContext of the same block with a mismatching context (missing / extra / other height), followed at once or later by the call with the right one. " +
+		"30% of the accepts are stopped inside ChainIndex.UpdateLastAccepted (before the write and right after = hook window snow.accept.afterIndex) while a reader goroutine looks up by id the block being accepted and up to 7 other processing blocks. " +
 		"Non-trivial = at least 3 accepts and 1 reject; distinct = (config, sequence of action kinds incl. verify/reject sub-steps).")
 	r.Assume(
 		"the engine model issues only calls snowman can issue: Verify only when the parent is processing or last accepted and the block is undecided, Accept only on a processing child of the last accepted block, Reject exactly on the processing blocks of the conflicting subtrees (parents first), decisions go through the handle that was verified",
@@ -443,6 +452,8 @@ func TestC20(t *testing.T) {
 		"whether AcceptBlock receives a populated accepted parent is outside the statement: counted as accept_parent_unpopulated",
 		"quiescence point = VM.Shutdown (closes the accept queue and waits for the accepter), judged by a deadlock witness, never by a timeout",
 		"the accepted chain of the fixture's ChainIndex is never pruned (window 50000 > case length)",
+		"the engine's decision about a Verify call is its result: a call that returned an error (refused by the chain or because of a mismatching P-Chain context) verified nothing, so no verified notification may be sent during it; whether a mismatching context is refused at all is outside the statement (an accepted call is interpreted like any other successful Verify)",
+		"lookups by id while an Accept is in flight: a block the engine verified and has not rejected is processing or accepted at every instant of the call, so VM.GetBlock / ConsensusIndex.GetBlock must find it (the lookups run on a second goroutine while Accept is parked inside the chain index update; they are awaited, not timed)",
 	)
 	p := hooks.NewPerturb(r.Rand("hooks"))
 	p.PYield, p.PSleep, p.MaxSleep = 0.25, 0.10, 100*time.Microsecond
